@@ -1067,7 +1067,7 @@ func cmdOps() {
 		}
 		// shared-resource pairs: every round has at least two goroutines that use the SAME stamp file / image / user font, or
 		// that decode DIFFERENT documents with every stream filter, at the same time
-		switch (round + int(seed)) % 4 {
+		switch (round + int(seed) + map[int]int{1: 0, 2: 1, 4: 2, 16: 3}[runtime.GOMAXPROCS(0)]) % 4 {
 		case 0:
 			tasks[0].op, tasks[0].in, tasks[1].op, tasks[1].in = "pdfstamp", w.inputs[0], "pdfstamp", w.inputs[1]
 		case 1:
